@@ -178,6 +178,38 @@ def run(tier):
     fns = sorted(k for k, f in F.fns.items() if f.d.get("impl_trait") == INPUT and f.d.get("impl_adt") == STRINPUT)
     total, disc, residual = panics.review(rep, "override-panic-free", F, fns, table, short)
     rep.extra["strinput_panic_sites"] = {"total": total, "mechanically_discharged": disc, "reviewed": sum(len(v) for v in residual.values())}
+    # who may look at how much is buffered: a function whose result depends on buflen()/buf_is_empty() can differ between back-ends of
+    # different capacity; the functions that do so today are the reviewed buffer-dependent sites (assertions of the provided look-ahead
+    # tests, and the two scanner functions whose buffered and raw arms are checked by raw-arm-position-accounting)
+    BUFFER_STATE_READERS = {
+        INPUT + "::buf_is_empty": "definition (buflen() == 0)",
+        "<" + STRINPUT + " as " + INPUT + ">::buf_is_empty": "override, constant",
+        INPUT + "::next_2_are": "debug assertion on the look-ahead contract only",
+        INPUT + "::next_3_are": "debug assertion on the look-ahead contract only",
+        INPUT + "::next_is_document_end": "debug assertion on the look-ahead contract only",
+        INPUT + "::next_is_document_indicator": "debug assertion on the look-ahead contract only",
+        INPUT + "::next_is_document_start": "debug assertion on the look-ahead contract only",
+        SCANNER + "::scan_block_scalar_content_line": "buffered arm then raw arm (raw-arm-position-accounting)",
+        SCANNER + "::skip_block_scalar_indent": "large-indent arm (C01 reviewed loop, request-before-use)",
+    }
+    from . import C01 as _C01
+    onpath = _C01.parse_path_functions(F)
+    readers = {}
+    for k, f in F.fns.items():
+        if f.crate != "saphyr_parser" or "::test" in k or f.d.get("derived"):
+            continue
+        root = k
+        while root in F.fns and F.fns[root].kind == "Closure":
+            root = F.fns[root].d.get("closure_of")
+        if root not in onpath and k not in onpath:
+            continue
+        for bb, t, ck, fr in f.calls():
+            if fr and fr.get("trait") == INPUT and fr["name"] in ("buflen", "buf_is_empty"):
+                readers.setdefault(root, []).append(fr["name"])
+    for k, names in sorted(readers.items()):
+        rep.check(k in BUFFER_STATE_READERS, "buffer-state-readers", short(k), "this function now asks how much is buffered (%s): its result can depend on the "
+                  "back-end's buffer capacity and fill state, which is exactly what must not influence parsing" % ", ".join(sorted(set(names))), site=F.fns[k].span)
+    rep.floor("functions that read the buffer state", len(readers), 4)
     return rep
 
 
